@@ -41,6 +41,11 @@ def execute(c, choices):
     if c.get('cached'):
         from vakt.cache import create_cached_guard
         guard, st, cache = create_cached_guard(storage, ck, maxsize=c.get('cap', 16))
+        if c.get('drop_handle'):
+            # the caller keeps only (guard, storage); invalidation must not depend on the third value staying alive
+            import gc
+            del cache
+            gc.collect()
     else:
         guard, st = Guard(storage, ck), storage
     progs = []
@@ -169,6 +174,11 @@ class ConcStream(Stream):
             # cached guard: asked twice against the add of a vetoing policy through the observable storage
             {'checker': 'CExact', 'rxtable': [], 'init': [a], 'inquiries': [INQ], 'cached': True, 'cap': 16,
              'threads': [[['decide', 0], ['decide', 0]], [['add', d]]]},
+            # the same with the returned cache handle dropped by the caller (only guard and storage are kept)
+            {'checker': 'CExact', 'rxtable': [], 'init': [a], 'inquiries': [INQ], 'cached': True, 'cap': 16,
+             'drop_handle': True, 'threads': [[['decide', 0], ['add', d], ['decide', 0]]]},
+            {'checker': 'CExact', 'rxtable': [], 'init': [a], 'inquiries': [INQ], 'cached': True, 'cap': 16,
+             'drop_handle': True, 'threads': [[['decide', 0], ['decide', 0]], [['delete', 'a']]], 'bound': 1},
         ]
 
     def generate(self, rng, tier):
